@@ -194,10 +194,6 @@ func runC12(c *Ctx) {
 
 	// ---------- R6 ----------
 	if pp := c.P.Method("rules", "NetworkRule", "preparePattern"); pp != nil {
-		g := NewGate(c.P)
-		g.Inline = inlineOnly("(*rules.NetworkRule).IsOptionEnabled")
-		s := g.Eval(pp)
-		u := g.U
 		bad := ""
 		usesCompile := false
 		eachInstrG(c.P, pp, func(_ *ssa.BasicBlock, in ssa.Instruction) {
@@ -213,61 +209,42 @@ func runC12(c *Ctx) {
 		if !usesCompile && bad == "" {
 			bad = "UNDECIDED: no regexp.Compile"
 		}
-		// on compile error: invalid := true and return -1
-		var errAtom Ref = False
-		for _, at := range u.atoms {
-			if at.Op == "eq" && at.Args[1].IsNil() && at.Args[0].Op == "extract" && at.Args[0].Aux == "1" && at.Args[0].Args[0].Op == "call" && at.Args[0].Args[0].Aux == "regexp.Compile" {
-				errAtom = u.Atom(at)
+		// the pattern check(s): the vocabulary function(s) that call the compile routine, judged with
+		// the routine expanded (its way of reporting the outcome does not matter)
+		var mps []*ssa.Function
+		for _, fn := range c.P.AllLibFuncs() {
+			if c.P.IsNewHelper(fn) || fn == pp {
+				continue
+			}
+			calls := false
+			eachInstrG(c.P, fn, func(_ *ssa.BasicBlock, in ssa.Instruction) {
+				if ci, ok := in.(ssa.CallInstruction); ok && ci.Common().StaticCallee() == pp {
+					calls = true
+				}
+			})
+			if calls {
+				mps = append(mps, fn)
 			}
 		}
-		if bad == "" {
-			okInv, okRet := false, false
-			for _, ef := range s.Effects {
-				if ef.Kind == "store" && ef.Addr.Op == "faddr" && ef.Addr.Aux == "invalid" && ef.Val.Op == "bool" && ef.Val.B == True && errAtom != False && u.bdd.Implies(ef.Cond, u.bdd.Not(errAtom)) {
-					okInv = true
-				}
-			}
-			for _, r := range s.Rets {
-				if v, ok := r.Vals[0].IntVal(); ok && v == -1 && errAtom != False && u.bdd.And(r.Cond, u.bdd.Not(errAtom)) != False {
-					okRet = true
-				}
-				if v, ok := r.Vals[0].IntVal(); ok && v == 1 {
-					// 1 => regex non-nil: either it was already non-nil or it was just compiled without error
-					nonNil := u.bdd.Not(u.ToBool(u.Eq(u.Field(g.ParamExprs(pp)[0], "regex", nil), u.mk("nil", "", nil))))
-					if !(u.bdd.Implies(r.Cond, nonNil) || (errAtom != False && u.bdd.Implies(r.Cond, errAtom))) {
-						bad = "preparePattern can return 1 although no regular expression was stored"
-					}
-				}
-			}
-			if !okInv || !okRet {
-				bad = fmt.Sprintf("a failed compile does not mark the rule invalid and return -1 (invalid set=%v, returns -1=%v)", okInv, okRet)
+		if len(mps) == 0 && bad == "" {
+			bad = "UNDECIDED: no function calls preparePattern"
+		}
+		bad2 := ""
+		for _, mp := range mps {
+			v := patternVerdict(c, pp, mp, c.P.Func("rules", "patternToRegexp"), "")
+			switch {
+			case v.undecided != "":
+				bad2 = v.undecided
+			case v.nilUse != "":
+				bad2 = "the compiled expression is used although the compile routine did not report success (nil *Regexp dereference when the pattern is invalid): " + v.nilUse
+			case v.failAccepted && bad == "":
+				bad = "a rule whose pattern failed to compile can still be reported as matching"
+			case !v.invalidSet && bad == "":
+				bad = "a failed compile does not mark the rule invalid: the broken expression is compiled again for every request"
 			}
 		}
-		c.Check(bad == "", "C12.R6", "preparePattern: regexp.Compile; failure => invalid flag and -1; 1 => regexp stored", pp.Pos(), "decision function checked on all return sites", bad)
-		if mp := c.P.Method("rules", "NetworkRule", "matchPattern"); mp != nil {
-			g2 := NewGate(c.P)
-			g2.Inline = inlineOnly()
-			s2 := g2.Eval(mp)
-			u2 := g2.U
-			bad := ""
-			var prep *E
-			for _, ef := range s2.Effects {
-				if ef.Kind == "call" && ef.Call.Aux == calleeName(pp) {
-					prep = ef.Call
-				}
-			}
-			if prep == nil {
-				bad = "matchPattern does not call preparePattern"
-			} else {
-				is1 := u2.bdd.And(u2.bdd.Not(u2.ToBool(u2.Eq(prep, u2.Int(-1)))), u2.bdd.Not(u2.ToBool(u2.Eq(prep, u2.Int(0)))))
-				for _, r := range s2.Rets {
-					if r.Vals[0].Op == "call" && strings.Contains(r.Vals[0].Aux, "regexp.Regexp).MatchString") && !u2.bdd.Implies(r.Cond, is1) {
-						bad = "the compiled expression is used although preparePattern did not report success (nil *Regexp dereference when the pattern is invalid)"
-					}
-				}
-			}
-			c.Check(bad == "", "C12.R6", "matchPattern: the regexp is used only after preparePattern reported success", mp.Pos(), "MatchString reached only when the result is neither -1 nor 0", bad)
-		}
+		c.Check(bad == "", "C12.R6", "preparePattern: regexp.Compile; failure => invalid flag and -1; 1 => regexp stored", pp.Pos(), "evaluated inside the pattern check: a failed compile marks the rule invalid and the check answers false", bad)
+		c.Check(bad2 == "", "C12.R6", "matchPattern: the regexp is used only after preparePattern reported success", pp.Pos(), "every receiver of MatchString is the stored non-nil expression or the result of a compile without error", bad2)
 	}
 
 	if !c.noImports {
